@@ -34,7 +34,7 @@ ASSUMPTIONS = ["truth is judged only for currently registered listeners and only
                "alternation is judged per registration period (a re-registration starts a new history)"]
 FLOORS = {"quick": {"histories": 60000, "exhaustive_core_histories": 50000, "random_histories": 3000, "histories_with_a_crowd_of_other_senders": 150, "idle_truth_checks": 2000000,
                     "alternation_events": 100000, "reboot_order_checks": 2000, "same_iteration_placements": 20000,
-                    "deadline_before_placements": 5000, "deadline_after_placements": 5000, "offered_required_checks": 50000,
+                    "deadline_before_placements": 5000, "deadline_after_placements": 5000, "offered_required_checks": 50000, "scenarios_with_a_listener_registered_from_inside_a_report": 500,
                     "mesh_scenarios": 100, "mesh_final_checks_watcher": 90, "mesh_alternation_events": 600}}
 # system-level shards: the mesh workload of pv/mesh.py under this property's boundary monitors (reports of other monitors are dropped)
 MESH = {"want": ("converge",), "claim": ("mesh:watcher-does-not-converge", "mesh:discovery-listener-history"),
@@ -603,15 +603,129 @@ def count_placements(ctx, seq):
             ctx.count("within_resolution_before_deadline_placements")
 
 
+# ------------------------------------------------------------------- listeners registered from inside a report (D13)
+def registered_inside_a_report(ctx, seed, replay):
+    """A listener that, when it is told a service is offered, registers a further listener (the application starts monitoring
+    more once its gate service is up): under the same kind of registration, under another one, under a new filter.  The
+    newcomer is registered while the offer is live: its history begins with 'offered', alternates, and once the loop is idle
+    its last word is 'offered' exactly while the offer is live."""
+    import someip.config as C
+    import someip.sd as S
+
+    rng = random.Random("inside" + str(seed))
+    h = Harness(random.Random(seed), max_iterations=100000)
+    prot, tr = net.make_sd(h.loop, ("10.0.5.100", 30490))
+    first_kind = rng.choice(("all", "filter"))
+    second_kind = rng.choice(("all", "same-filter", "wider-filter", "other-filter"))
+    logs = {"first": [], "second": []}
+    state = dict(registered=False)
+    SID = 0x1111
+
+    class Rec(S.ClientServiceListener):
+        def __init__(self, name):
+            self.name = name
+
+        def service_offered(self, service, source):
+            logs[self.name].append((h.loop.time(), "offered", service.service_id, source))
+
+        def service_stopped(self, service, source):
+            logs[self.name].append((h.loop.time(), "stopped", service.service_id, source))
+
+    second = Rec("second")
+    filters = {"same-filter": C.Service(SID, 1), "wider-filter": C.Service(SID), "other-filter": C.Service(SID + 1)}
+
+    class First(Rec):
+        def service_offered(self, service, source):
+            Rec.service_offered(self, service, source)
+            if not state["registered"]:
+                state["registered"] = True
+                if second_kind == "all":
+                    prot.discovery.watch_all_services(second)
+                else:
+                    prot.discovery.watch_service(filters[second_kind], second)
+
+    first = First("first")
+
+    def setup():
+        if first_kind == "all":
+            prot.discovery.watch_all_services(first)
+        else:
+            prot.discovery.watch_service(C.Service(SID, 1), first)
+
+    h.at(0.0, setup)
+    P = ("10.0.5.9", 30490)
+    sess = net.PeerSession()
+    ttl = rng.choice((2, 3, FOREVER))
+    t = 0.5
+    live = None  # deadline of the offer of (SID, 1) from P
+    script = []
+    for k in range(rng.randrange(1, 6)):
+        what = "offer" if k == 0 else rng.choice(("offer", "offer", "stop", "reboot"))
+        if live is not None and live <= t:
+            live = None
+        fl, sid = (None, None)
+        if what == "reboot":
+            sess.reboot()
+            ents = [net.find(0x7777)]
+            live = None
+        elif what == "stop":
+            ents = [net.offer(SID, 1, 1, 0, 0)]
+            live = None
+        else:
+            ents = [net.offer(SID, 1, 1, 0, ttl, o1=[refwire.ep4("10.0.5.9", 3000)])]
+            live = math.inf if ttl == FOREVER else t + ttl
+        fl, sid = sess.next()
+        h.at(t, prot.datagram_received, net.sd_bytes(net.with_riders(ents, k), sid, reboot=fl), P, False)
+        script.append((round(t, 4), what))
+        t += rng.choice((0.25, 0.75, 1.5, 2.5)) + 2.0 ** -12
+    t_end = t + 0.5
+    if live is not None and live <= t_end:
+        live = None
+    h.run(t_end)
+    problems = h.problems()
+    h.close()
+    ctx.count("scenarios_with_a_listener_registered_from_inside_a_report")
+    ctx.note("registrations_from_inside_a_report", first_kind + "->" + second_kind)
+    detail = dict(first=first_kind, second=second_kind, ttl=ttl, script=script)
+    for p_ in problems:
+        ctx.violation("unexpected-exception-during-run", dict(problem=p_, **detail), replay)
+    matches = second_kind != "other-filter"
+    for name in ("first", "second"):
+        last = "stopped"
+        for tt, kind, _sid, _src in logs[name]:
+            if kind == last:
+                ctx.violation("listener-history-not-alternating:" + ("stopped-first-or-twice" if kind == "stopped" else "offered-twice"),
+                              dict(listener=name + " (registered from inside a report)" if name == "second" else name, at=tt,
+                                   history=[(a, b) for a, b, _c, _d in logs[name]][:8], **detail), replay)
+                break
+            last = kind
+        want = "offered" if live is not None and (name == "first" or matches) else "stopped"
+        if not logs[name] and name == "second" and not matches:
+            continue
+        got = logs[name][-1][1] if logs[name] else "stopped"
+        if got != want:
+            ctx.violation("listener-says-offered-but-no-live-offer" if got == "offered" else
+                          "live-offer-arrived-while-registered-but-listener-not-offered",
+                          dict(listener=name, history=[(a, b) for a, b, _c, _d in logs[name]][:8], **detail), replay)
+    return True
+
+
 def shards(tier, seed):
     n = 16
     out = [dict(shard=i, nshards=n, seed=seed, mode="core", length=3 if tier == "quick" else 4,
                 sample=None if tier == "quick" else 0.02) for i in range(n)]
     out += [dict(shard=100 + i, seed=seed, mode="random", n=600 if tier == "quick" else 40000) for i in range(n)]
+    out += [dict(shard=200, seed=seed, mode="inside", n=600 if tier == "quick" else 40000)]
     return out
 
 
 def run(spec, ctx):
+    if spec["mode"] == "inside":
+        base = f"C05inside/{spec['seed']}/{spec['shard']}"
+        for i in range(spec["n"]):
+            nt = registered_inside_a_report(ctx, f"{base}/{i}", dict(kind="inside", seedkey=f"{base}/{i}"))
+            ctx.case(("inside", i), nt)
+        return
     if spec["mode"] == "core":
         rng = random.Random(f"C05core/{spec['seed']}/{spec['shard']}")
         shown = 0
@@ -641,6 +755,10 @@ def run(spec, ctx):
 
 
 def replay(doc, ctx):
+    if doc["kind"] == "inside":
+        registered_inside_a_report(ctx, doc["seedkey"], doc)
+        ctx.case(("replay",), True)
+        return
     if doc["kind"] == "core":
         init = tuple(doc["init"])
         seq = tuple(tuple(x) for x in doc["seq"])
